@@ -83,6 +83,7 @@ def shadow_census(repo: Repo, rep, P: str):
     # per attribute NAME (not class-precise: receivers are resolved by name): where is it assigned?
     init_nonconst: Set[str] = set()     # assigned a non-constant value in a constructor / ordinary method / class body
     init_const: Set[str] = set()
+    init_dynamic: Set[str] = set()      # names a non-load `setattr(obj, <computed name>, …)` may define (over-approximation)
     load_raw: Dict[str, List[Tuple[str, ast.AST]]] = {}
     load_any: Dict[str, List[Tuple[str, ast.AST]]] = {}
     reads_in_writers: Dict[str, List[Tuple[str, ast.AST, str]]] = {}
@@ -100,8 +101,8 @@ def shadow_census(repo: Repo, rep, P: str):
         fns = list(c.methods.items()) + [(f"{k}", v) for k, v in c.getters.items()] + [(f"{k}.setter", v) for k, v in c.setters.items()]
         for fname, fn in fns:
             fq = f"{c.file.rel}:{c.qualname}.{fname}"
+            from .. import inline
             if fname == "__init__" or any(isinstance(x, ast.Call) and isinstance(x.func, ast.Name) and x.func.id in ("setattr", "getattr") for x in ast.walk(fn)):
-                from .. import inline
                 # table-driven attribute loops (also in private helpers of the constructor) read as the assignments they perform
                 fn = inline.normalize(repo, c, fn)
             params = {a.arg for a in fn.args.args if a.arg != "self"} | {a.arg for a in fn.args.kwonlyargs}
@@ -130,6 +131,25 @@ def shadow_census(repo: Repo, rep, P: str):
                     stores.append((n.func.value.attr, n.args[-1]))
                 elif isinstance(n, ast.Call) and norm(n.func) == "setattr" and len(n.args) == 3 and isinstance(n.args[1], ast.Constant):
                     stores.append((str(n.args[1].value), n.args[2]))
+                elif isinstance(n, ast.Call) and norm(n.func) == "setattr" and len(n.args) == 3 and not loader:
+                    # setattr(self, <computed name>, value) outside load-time code: the names it may define are over-approximated by the
+                    # identifier-like string constants of this function (in normal form) and of the module-level tables it mentions
+                    pool = [x for x in ast.walk(fn)]
+                    # private helpers the function calls (one level) supply names as well
+                    for hc in [x for x in ast.walk(fn) if isinstance(x, ast.Call) and isinstance(x.func, ast.Attribute) and norm(x.func.value) in ("self", "cls")]:
+                        r_ = repo.lookup(c, hc.func.attr)
+                        if r_ is not None and r_[1] == "method":
+                            pool += list(ast.walk(r_[2]))
+                    for nm_ in {x.id for x in pool if isinstance(x, ast.Name)}:
+                        try:
+                            d_ = inline.definition_of(repo, c, c.file, ast.Name(id=nm_, ctx=ast.Load()))
+                        except Exception:
+                            d_ = None
+                        if isinstance(d_, (ast.Tuple, ast.List, ast.Dict, ast.Set)):
+                            pool += list(ast.walk(d_))
+                    for x in pool:
+                        if isinstance(x, ast.Constant) and isinstance(x.value, str) and x.value.isidentifier():
+                            init_dynamic.add(x.value)
                 for attr, val in stores:
                     if loader:
                         load_any.setdefault(attr, []).append((fq, n))
@@ -153,7 +173,7 @@ def shadow_census(repo: Repo, rep, P: str):
     for attr, sites in sorted(reads_in_writers.items()):
         raw = load_raw.get(attr, [])
         anyload = load_any.get(attr, [])
-        defined_live = attr in init_nonconst
+        defined_live = attr in init_nonconst or attr in init_dynamic
         cand = None
         if raw and not defined_live:
             cand = f"filled with raw file bytes at load time ({raw[0][0]}) and never assigned from API input"
